@@ -10,6 +10,7 @@ use std::io::Seek;
 use std::io::Write;
 use std::path::PathBuf;
 use std::time::Duration;
+use std::time::Instant;
 
 use anyhow::Context;
 use anyhow::Result;
@@ -99,6 +100,7 @@ impl Runner for SubprocessRunner {
         }
 
         // constraint max execution time?
+        let started = Instant::now();
         let mut comm = process.communicate_start(Some(input.as_bytes().to_vec()));
         if let Some(timeout) = testcase.config.timeout {
             comm = comm.limit_time(timeout);
@@ -116,7 +118,22 @@ impl Runner for SubprocessRunner {
             Ok((stdout, stderr)) => (
                 stdout,
                 stderr,
-                process.wait().context("capture process exit")?.into(),
+                // closed output streams do not mean that the process has ended: the time
+                // limit keeps applying while waiting for it to exit
+                match testcase.config.timeout {
+                    Some(timeout) => match process
+                        .wait_timeout(timeout.saturating_sub(started.elapsed()))
+                        .context("capture process exit")?
+                    {
+                        Some(status) => status.into(),
+                        None => {
+                            let _ = process.kill();
+                            let _ = process.wait();
+                            OutputExitStatus::Timeout(timeout)
+                        }
+                    },
+                    None => process.wait().context("capture process exit")?.into(),
+                },
             ),
 
             // bummer, a sad thing happened
